@@ -809,7 +809,7 @@ def topo_runs(ctx, n=None, k=None):
     key = (n, k)
     cache = ctx.__dict__.setdefault("_c11_topo", {})
     if key not in cache:
-        tcases, trng = _tcases(ctx, "topo", n or ctx.scale(24, 130))
+        tcases, trng = _tcases(ctx, "topo", n or ctx.scale(24, 250))
         cache[key] = [(ts, run_tspec(ts, trng, k or ctx.scale(3, 4))) for ts in tcases]
     return cache[key]
 
@@ -852,7 +852,7 @@ def _unordered_components(reply):
 def correspondence(ctx, res):
     from core import Result
     scratch = Result()
-    cases, rng = _cases(ctx, "corr", ctx.scale(150, 1000))
+    cases, rng = _cases(ctx, "corr", ctx.scale(150, 2500))
     reqs, impl = [], []
     for sl in cases:
         for entry in ("fold", "dispatch"):
@@ -937,7 +937,7 @@ def full_request(res):
 
 
 def oracle(ctx, res, n=None, nt=None):
-    cases, rng = _cases(ctx, "oracle", n or ctx.scale(300, 1500))
+    cases, rng = _cases(ctx, "oracle", n or ctx.scale(300, 4000))
     full_request(res)
     for fn, c in load_corpus():
         res.count("corpus:" + fn)
